@@ -493,6 +493,77 @@ func xfReadFromConcurrent(cfg xfCfg, kind string, n int) bool {
 	return k < 0 || k > int64(cfg.MP)
 }
 
+// ---------- open modes ----------
+
+// xfOpenMode is one way of opening the File a transfer runs through. Wire is the pflags word the OPEN request must
+// carry (draft-ietf-secsh-filexfer-02: READ 1, WRITE 2, APPEND 4, CREAT 8, TRUNC 16, EXCL 32), written out here
+// independently of the package's own translation.
+type xfOpenMode struct {
+	Name   string
+	Flags  int    // handed to Client.OpenFile
+	Create bool   // Client.Create(path) instead (documented: O_RDWR|O_CREATE|O_TRUNC)
+	Wire   uint32 // expected pflags
+	Fresh  bool   // the file does not exist before the open
+	Refuse bool   // the file exists and O_EXCL is given: the open must fail and leave the file alone
+}
+
+func (m xfOpenMode) Reads() bool  { return m.Wire&wire.FRead != 0 }
+func (m xfOpenMode) Writes() bool { return m.Wire&wire.FWrite != 0 }
+func (m xfOpenMode) Trunc() bool  { return m.Wire&wire.FTrunc != 0 }
+func (m xfOpenMode) Append() bool { return m.Wire&wire.FAppend != 0 }
+
+// Empties: the file is empty right after the open whatever it held before.
+func (m xfOpenMode) Empties() bool { return (m.Trunc() || m.Fresh) && !m.Refuse }
+
+var xfOpenModeList = []xfOpenMode{
+	{Name: "rdonly", Flags: os.O_RDONLY, Wire: 1},
+	{Name: "wronly", Flags: os.O_WRONLY, Wire: 2},
+	{Name: "rdwr", Flags: os.O_RDWR, Wire: 3},
+	{Name: "wronly+creat", Flags: os.O_WRONLY | os.O_CREATE, Wire: 2 | 8},
+	{Name: "rdwr+creat", Flags: os.O_RDWR | os.O_CREATE, Wire: 3 | 8},
+	{Name: "wronly+append", Flags: os.O_WRONLY | os.O_APPEND, Wire: 2 | 4},
+	{Name: "rdwr+append", Flags: os.O_RDWR | os.O_APPEND, Wire: 3 | 4},
+	{Name: "wronly+creat+append", Flags: os.O_WRONLY | os.O_CREATE | os.O_APPEND, Wire: 2 | 4 | 8},
+	{Name: "wronly+trunc", Flags: os.O_WRONLY | os.O_TRUNC, Wire: 2 | 16},
+	{Name: "rdwr+trunc", Flags: os.O_RDWR | os.O_TRUNC, Wire: 3 | 16},
+	{Name: "rdwr+creat+trunc", Flags: os.O_RDWR | os.O_CREATE | os.O_TRUNC, Wire: 3 | 8 | 16},
+	{Name: "create()", Create: true, Wire: 3 | 8 | 16},
+	{Name: "wronly+creat+excl", Flags: os.O_WRONLY | os.O_CREATE | os.O_EXCL, Wire: 2 | 8 | 32, Fresh: true},
+	{Name: "rdwr+creat+excl", Flags: os.O_RDWR | os.O_CREATE | os.O_EXCL, Wire: 3 | 8 | 32, Fresh: true},
+	{Name: "wronly+creat+excl/exists", Flags: os.O_WRONLY | os.O_CREATE | os.O_EXCL, Wire: 2 | 8 | 32, Refuse: true},
+	{Name: "rdwr+creat+excl/exists", Flags: os.O_RDWR | os.O_CREATE | os.O_EXCL, Wire: 3 | 8 | 32, Refuse: true},
+}
+
+func xfOpenModeByName(name string) (xfOpenMode, bool) {
+	for _, m := range xfOpenModeList {
+		if m.Name == name {
+			return m, true
+		}
+	}
+	return xfOpenMode{}, false
+}
+
+// The modes a write-side transfer rotates through, and those of a read-side transfer (a read needs READ access; the
+// modes that empty the file make every read an end-of-file read).
+var xfWriteOpenModes = []string{"wronly+creat", "rdwr+creat", "wronly", "rdwr", "wronly+append", "rdwr+append", "wronly+creat+append",
+	"wronly+trunc", "rdwr+trunc", "rdwr+creat+trunc", "create()", "wronly+creat+excl", "rdwr+creat+excl", "wronly+creat+excl/exists"}
+var xfReadOpenModes = []string{"rdonly", "rdwr", "rdwr+creat", "rdwr+append", "rdwr+trunc", "rdwr", "rdonly", "rdwr+creat", "rdwr+append", "create()",
+	"rdwr", "rdwr+creat", "rdonly", "rdwr+append", "rdwr+creat+excl", "rdwr", "rdwr+creat", "rdwr+append", "rdonly", "rdwr+creat+excl/exists"}
+
+// Open opens path on cli the way the mode says.
+func (m xfOpenMode) Open(cli *sftp.Client, path string) (*sftp.File, error) {
+	if m.Create {
+		return cli.Create(path)
+	}
+	return cli.OpenFile(path, m.Flags)
+}
+
+// HandlerFlags is what a request-server handler must be shown for the mode.
+func (m xfOpenMode) HandlerFlags() sftp.FileOpenFlags {
+	return sftp.FileOpenFlags{Read: m.Wire&wire.FRead != 0, Write: m.Wire&wire.FWrite != 0, Append: m.Wire&wire.FAppend != 0,
+		Creat: m.Wire&wire.FCreat != 0, Trunc: m.Wire&wire.FTrunc != 0, Excl: m.Wire&wire.FExcl != 0}
+}
+
 // ---------- backends ----------
 
 type xfSrvSpec struct {
@@ -500,6 +571,9 @@ type xfSrvSpec struct {
 	Alloc bool   `json:"alloc"`
 	MaxTx uint32 `json:"max_tx"` // 0: default
 	Perm  bool   `json:"permute"`
+	// rs only: the FilePut handler has no OpenFile method (it is not an sftp.OpenFileWriter). A read-write open is then
+	// served by Filewrite: writes work, READs through that handle are refused by the server.
+	NoOFW bool `json:"no_open_file_writer,omitempty"`
 }
 
 func (s xfSrvSpec) String() string {
@@ -512,6 +586,9 @@ func (s xfSrvSpec) String() string {
 	}
 	if s.Perm {
 		t += "+perm"
+	}
+	if s.NoOFW {
+		t += "-openfilewriter"
 	}
 	return t
 }
@@ -576,7 +653,11 @@ func xfStartPair(spec xfSrvSpec, cfg xfCfg, dir string) (*xfReal, error) {
 		}
 		p.Mem = xfNewMemFS()
 		p.Mem.tap = p.Tap
-		rs := sftp.NewRequestServer(rwc, p.Mem.Handlers(), ro...)
+		h := p.Mem.Handlers()
+		if spec.NoOFW {
+			h.FilePut = xfMemPutOnly{p.Mem}
+		}
+		rs := sftp.NewRequestServer(rwc, h, ro...)
 		p.RS = rs
 		go func() { rs.Serve(); s2cW.Close(); close(p.done) }()
 	default:
@@ -629,6 +710,19 @@ func (p *xfReal) Get(name string) ([]byte, error) {
 	return b, nil
 }
 
+// Remove makes sure the served file does not exist.
+func (p *xfReal) Remove(name string) error {
+	if p.Spec.Kind == "os" {
+		err := os.Remove(p.Path(name))
+		if os.IsNotExist(err) {
+			return nil
+		}
+		return err
+	}
+	p.Mem.Delete(p.Path(name))
+	return nil
+}
+
 // OpenHandles is the number of handles the server still holds.
 func (p *xfReal) OpenHandles() int {
 	if p.OS != nil {
@@ -663,7 +757,24 @@ type xfMemFS struct {
 	// that use views issue one such request at a time).
 	views map[string]xfNameView
 	tap   *xfFrameTap
+	// the latest open the handlers saw: which method was called and the flags the request showed it
+	lastOpen xfMemOpen
 }
+
+// xfMemOpen is what a handler saw of an OPEN request.
+type xfMemOpen struct {
+	Via   string // Fileread | Filewrite | OpenFile
+	Flags sftp.FileOpenFlags
+}
+
+func (m *xfMemFS) LastOpen() xfMemOpen { m.mu.Lock(); defer m.mu.Unlock(); return m.lastOpen }
+
+func (m *xfMemFS) Delete(p string) { m.mu.Lock(); delete(m.files, p); m.mu.Unlock() }
+
+// xfMemPutOnly is the same file system as a FileWriter that is NOT an sftp.OpenFileWriter.
+type xfMemPutOnly struct{ m *xfMemFS }
+
+func (w xfMemPutOnly) Filewrite(r *sftp.Request) (io.WriterAt, error) { return w.m.Filewrite(r) }
 
 // SetNameView installs (or with Kind "" / "same" removes) the view of a path.
 func (m *xfMemFS) SetNameView(p string, v xfNameView) {
@@ -776,13 +887,15 @@ func (m *xfMemFS) Fileread(r *sftp.Request) (io.ReaderAt, error) {
 		return nil, os.ErrNotExist
 	}
 	m.Opens++
+	m.lastOpen = xfMemOpen{Via: "Fileread", Flags: r.Pflags()}
 	return &xfMemHandle{m: m, path: r.Filepath}, nil
 }
 
-func (m *xfMemFS) open(r *sftp.Request) (*xfMemHandle, error) {
+func (m *xfMemFS) open(r *sftp.Request, via string) (*xfMemHandle, error) {
 	m.mu.Lock()
 	defer m.mu.Unlock()
 	fl := r.Pflags()
+	m.lastOpen = xfMemOpen{Via: via, Flags: fl}
 	_, ok := m.files[r.Filepath]
 	switch {
 	case !ok && !fl.Creat:
@@ -799,9 +912,9 @@ func (m *xfMemFS) open(r *sftp.Request) (*xfMemHandle, error) {
 	return &xfMemHandle{m: m, path: r.Filepath}, nil
 }
 
-func (m *xfMemFS) Filewrite(r *sftp.Request) (io.WriterAt, error) { return m.open(r) }
+func (m *xfMemFS) Filewrite(r *sftp.Request) (io.WriterAt, error) { return m.open(r, "Filewrite") }
 func (m *xfMemFS) OpenFile(r *sftp.Request) (sftp.WriterAtReaderAt, error) {
-	return m.open(r)
+	return m.open(r, "OpenFile")
 }
 
 func (m *xfMemFS) Filecmd(r *sftp.Request) error {
@@ -1027,6 +1140,45 @@ func xfGuard(f func()) (ok bool, panicked any) {
 		return true, p
 	case <-time.After(20 * time.Second):
 		return false, nil
+	}
+}
+
+// xfHangBudget bounds what hangs may cost a run: every hang is a failure of its own and takes 20 s to declare; after
+// xfHangLimit of them against one server kind the remaining cases against that kind are not run (and that is said).
+type xfHangBudget struct {
+	mu sync.Mutex
+	n  map[string]int
+}
+
+const xfHangLimit = 4
+
+func (h *xfHangBudget) Add(spec xfSrvSpec) {
+	h.mu.Lock()
+	if h.n == nil {
+		h.n = map[string]int{}
+	}
+	h.n[spec.String()]++
+	h.mu.Unlock()
+}
+
+func (h *xfHangBudget) Spent(spec xfSrvSpec) bool {
+	h.mu.Lock()
+	defer h.mu.Unlock()
+	return h.n[spec.String()] >= xfHangLimit
+}
+
+func (h *xfHangBudget) Report(r *lib.Result) {
+	h.mu.Lock()
+	defer h.mu.Unlock()
+	var ks []string
+	for k, n := range h.n {
+		if n >= xfHangLimit {
+			ks = append(ks, k)
+		}
+	}
+	sort.Strings(ks)
+	for _, k := range ks {
+		r.Note("%d calls hung against server kind %s (each reported); the remaining cases against it were not run", h.n[k], k)
 	}
 }
 
